@@ -53,15 +53,17 @@ pub enum JobOut {
 type JobFn = Box<dyn FnOnce() -> JobOut + Send>;
 
 const MAIN: u8 = 0;
+/// helper threads per worker: up to three operations can overlap
+const NH: usize = 3;
 
 struct St {
     turn: u8,
     /// 0 idle, 1 has a job (not started), 2 parked at a yield point, 3 done, 4 running
-    state: [u8; 2],
-    site: [&'static str; 2],
-    jobs: [Option<JobFn>; 2],
-    actors: [Option<Actor>; 2],
-    outs: [Option<(JobOut, Vec<hooks::Spawned>)>; 2],
+    state: [u8; NH],
+    site: [&'static str; NH],
+    jobs: [Option<JobFn>; NH],
+    actors: [Option<Actor>; NH],
+    outs: [Option<(JobOut, Vec<hooks::Spawned>)>; NH],
     clock: (Option<Instant>, Duration),
     quit: bool,
 }
@@ -89,11 +91,11 @@ impl Helpers {
         let sh = Arc::new(Shared {
             m: Mutex::new(St {
                 turn: MAIN,
-                state: [0, 0],
-                site: ["", ""],
-                jobs: [None, None],
-                actors: [None, None],
-                outs: [None, None],
+                state: [0; NH],
+                site: [""; NH],
+                jobs: [None, None, None],
+                actors: [None; NH],
+                outs: [None, None, None],
                 clock: (None, Duration::ZERO),
                 quit: false,
             }),
@@ -105,7 +107,7 @@ impl Helpers {
         let clock = Arc::new(std::sync::atomic::AtomicU64::new(0));
         hooks::share_clock_offset(Some(clock.clone()));
         let mut threads = vec![];
-        for i in 0..2usize {
+        for i in 0..NH {
             let sh2 = sh.clone();
             let wh2 = wh.clone();
             let clock2 = clock.clone();
@@ -119,24 +121,29 @@ impl Helpers {
         Helpers { sh, threads }
     }
 
-    /// Run two jobs under the schedule `prefix` (then always the first runnable one).
-    /// `on_point` is called at every decision point, while both operations are parked.
-    fn run_pair(&self, jobs: [JobFn; 2], actors: [Option<Actor>; 2], prefix: &[u8], on_point: &mut dyn FnMut()) -> Result<([(JobOut, Vec<hooks::Spawned>); 2], PairTrace), String> {
+    /// Run up to `NH` jobs under the schedule `prefix` (then always the first runnable one).
+    /// `on_point` is called at every decision point, while all operations are parked.
+    fn run_group(&self, jobs: Vec<JobFn>, actors: Vec<Option<Actor>>, prefix: &[u8], on_point: &mut dyn FnMut()) -> Result<(Vec<(JobOut, Vec<hooks::Spawned>)>, PairTrace), String> {
         let mut trace = PairTrace::default();
+        let n = jobs.len();
+        assert!(n <= NH);
         {
             let mut st = self.sh.m.lock().unwrap();
-            let [a, b] = jobs;
-            st.jobs = [Some(a), Some(b)];
-            st.actors = actors;
-            st.state = [1, 1];
-            st.outs = [None, None];
+            st.state = [3; NH];
+            st.outs = [None, None, None];
+            st.actors = [None; NH];
+            for (i, j) in jobs.into_iter().enumerate() {
+                st.jobs[i] = Some(j);
+                st.actors[i] = actors[i];
+                st.state[i] = 1;
+            }
             st.clock = hooks::clock_state();
             st.turn = MAIN;
         }
         loop {
             let enabled: Vec<usize> = {
                 let st = self.sh.m.lock().unwrap();
-                (0..2).filter(|&i| st.state[i] != 3).collect()
+                (0..n).filter(|&i| st.state[i] != 3).collect()
             };
             if enabled.is_empty() {
                 break;
@@ -164,10 +171,12 @@ impl Helpers {
             trace.steps.push((who as u8, site));
         }
         let mut st = self.sh.m.lock().unwrap();
-        let a = st.outs[0].take().ok_or("no result from operation 0")?;
-        let b = st.outs[1].take().ok_or("no result from operation 1")?;
-        st.state = [0, 0];
-        Ok(([a, b], trace))
+        let mut outs = vec![];
+        for i in 0..n {
+            outs.push(st.outs[i].take().ok_or(format!("no result from operation {i}"))?);
+        }
+        st.state = [0; NH];
+        Ok((outs, trace))
     }
 }
 
@@ -467,8 +476,13 @@ impl Sim {
         }
     }
 
-    /// Execute the operations `a` and `b` concurrently under the interleaving `prefix`.
+    /// Execute two operations concurrently under the interleaving `prefix`.
     pub fn apply_pair(&mut self, a: Ev, b: Ev, prefix: &[u8], max_idle_seen: &mut usize) -> Result<(StepReport, PairTrace), String> {
+        self.apply_group(&[a, b], prefix, max_idle_seen)
+    }
+
+    /// Execute the operations of `group` (two or three) concurrently under the interleaving `prefix`.
+    pub fn apply_group(&mut self, group: &[Ev], prefix: &[u8], max_idle_seen: &mut usize) -> Result<(StepReport, PairTrace), String> {
         let mut rep = StepReport::default();
         let pre_snap = std::mem::take(&mut self.snap);
         let (n_dials, n_handoffs, n_conns) = world::with(|w| {
@@ -477,10 +491,14 @@ impl Sim {
             w.ready_polls.clear();
             (w.dials.len(), w.handoffs.len(), w.conns.len())
         });
-        self.history.push(a);
-        self.history.push(b);
-        let (ja, aa) = self.prepare_job(a, &pre_snap);
-        let (jb, ab) = self.prepare_job(b, &pre_snap);
+        let mut jobs = vec![];
+        let mut actors = vec![];
+        for &e in group {
+            self.history.push(e);
+            let (j, a) = self.prepare_job(e, &pre_snap);
+            jobs.push(j);
+            actors.push(a);
+        }
         let svc = &self.svc;
         let mut on_point = || {
             if let Some(s) = svc.verif_pool_snapshot(&|c: &world::HConn| format!("{}", c.c)) {
@@ -489,14 +507,20 @@ impl Sim {
                 }
             }
         };
-        let ([(oa, sa), (ob, sb)], trace) = with_helpers(|h| h.run_pair([ja, jb], [aa, ab], prefix, &mut on_point))?;
-        self.finish_job(a, oa, &mut rep);
-        self.finish_job(b, ob, &mut rep);
-        self.absorb_spawned(aa.unwrap_or(Actor::None), sa, &mut rep);
-        self.absorb_spawned(ab.unwrap_or(Actor::None), sb, &mut rep);
+        let actors2 = actors.clone();
+        let (outs, trace) = with_helpers(|h| h.run_group(jobs, actors2, prefix, &mut on_point))?;
+        let mut spawned_all = vec![];
+        for (i, (out, sp)) in outs.into_iter().enumerate() {
+            self.finish_job(group[i], out, &mut rep);
+            spawned_all.push((actors[i].unwrap_or(Actor::None), sp));
+        }
+        for (a, sp) in spawned_all {
+            self.absorb_spawned(a, sp, &mut rep);
+        }
         let post_snap = self.snapshot();
-        self.track(&pre_snap, &post_snap, a, n_conns, &mut rep);
-        self.track(&pre_snap, &post_snap, b, n_conns, &mut rep);
+        for &e in group {
+            self.track(&pre_snap, &post_snap, e, n_conns, &mut rep);
+        }
         rep.new_idle.sort();
         rep.new_idle.dedup();
         world::with(|w| {
@@ -543,6 +567,7 @@ pub struct ConcStats {
     pub states: u64,
     pub pairs: u64,
     pub env_pairs: u64,
+    pub triples: u64,
     pub interleavings: u64,
     pub max_decision_points: usize,
     pub max_interleavings_of_a_pair: u64,
@@ -562,7 +587,7 @@ pub struct ConcStats {
 pub struct ConcFound {
     pub viol: Viol,
     pub hist: Vec<Ev>,
-    pub pair: (Ev, Ev),
+    pub group: Vec<Ev>,
     pub schedule: Vec<u8>,
     pub steps: String,
 }
@@ -576,6 +601,7 @@ pub struct ConcOutcome {
 struct StateResult {
     pairs: u64,
     env_pairs: u64,
+    triples: u64,
     interleavings: u64,
     max_points: usize,
     max_inter: u64,
@@ -591,8 +617,12 @@ struct StateResult {
     sample: Option<String>,
 }
 
-fn steps_text(a: Ev, b: Ev, t: &PairTrace) -> String {
-    t.steps.iter().map(|(w, s)| format!("{}→{}", if *w == 0 { a.text() } else { b.text() }, s)).collect::<Vec<_>>().join(", ")
+fn steps_text(group: &[Ev], t: &PairTrace) -> String {
+    t.steps.iter().map(|(w, s)| format!("{}→{}", group[*w as usize].text(), s)).collect::<Vec<_>>().join(", ")
+}
+
+fn group_text(group: &[Ev]) -> String {
+    group.iter().map(|e| e.text()).collect::<Vec<_>>().join(" || ")
 }
 
 /// Run the deterministic continuation from a state that only a concurrent execution reaches.
@@ -649,10 +679,11 @@ fn continue_sequentially(sim: &mut Sim, out: &mut Vec<Viol>, drains: &mut u64, p
     }
 }
 
-fn explore_state(cfg: &SimConfig, hist: &[Ev], seq_fps: &HashSet<Fp>, props: &[&'static str]) -> StateResult {
+fn explore_state(cfg: &SimConfig, hist: &[Ev], seq_fps: &HashSet<Fp>, props: &[&'static str], triples: bool) -> StateResult {
     let mut res = StateResult {
         pairs: 0,
         env_pairs: 0,
+        triples: 0,
         interleavings: 0,
         max_points: 0,
         max_inter: 0,
@@ -700,10 +731,29 @@ fn explore_state(cfg: &SimConfig, hist: &[Ev], seq_fps: &HashSet<Fp>, props: &[&
             pairs.push((a, x));
         }
     }
+    let mut groups: Vec<Vec<Ev>> = pairs.into_iter().map(|(a, b)| vec![a, b]).collect();
+    if triples {
+        // three overlapping operations of three different actors
+        for i in 0..ops.len() {
+            for j in (i + 1)..ops.len() {
+                for k in (j + 1)..ops.len() {
+                    let n_issue = [ops[i].0, ops[j].0, ops[k].0].iter().filter(|e| matches!(e, Ev::Issue { .. })).count();
+                    if n_issue > 1 || ops[i].1 == ops[j].1 || ops[i].1 == ops[k].1 || ops[j].1 == ops[k].1 {
+                        continue;
+                    }
+                    groups.push(vec![ops[i].0, ops[j].0, ops[k].0]);
+                }
+            }
+        }
+    }
     {
-        for (a, b) in pairs {
+        for group in groups {
+            let (a, b) = (group[0], group[1]);
             if is_env(b) {
                 res.env_pairs += 1;
+            }
+            if group.len() == 3 {
+                res.triples += 1;
             }
             res.pairs += 1;
             let mut stack: Vec<Vec<u8>> = vec![vec![]];
@@ -713,10 +763,10 @@ fn explore_state(cfg: &SimConfig, hist: &[Ev], seq_fps: &HashSet<Fp>, props: &[&
                 let pre = checks::capture_pre(&sim);
                 let pre_ages: Vec<(usize, Duration)> = sim.snap.tokens.iter().flat_map(|t| t.idle.iter()).filter_map(|i| i.conn.parse::<usize>().ok().map(|c| (c, i.age))).collect();
                 let mut max_idle_seen = 0usize;
-                let (rep, trace) = match sim.apply_pair(a, b, &prefix, &mut max_idle_seen) {
+                let (rep, trace) = match sim.apply_group(&group, &prefix, &mut max_idle_seen) {
                     Ok(x) => x,
                     Err(m) => {
-                        res.error = Some(format!("{m} — after [{}] pair ({}, {})", hist_text(hist), a.text(), b.text()));
+                        res.error = Some(format!("{m} — after [{}] group ({})", hist_text(hist), group_text(&group)));
                         return res;
                     }
                 };
@@ -726,10 +776,12 @@ fn explore_state(cfg: &SimConfig, hist: &[Ev], seq_fps: &HashSet<Fp>, props: &[&
                     res.sites.insert(s);
                 }
                 for k in prefix.len()..trace.decisions.len() {
-                    if trace.decisions[k].0 == 2 && trace.decisions[k].1 == 0 {
-                        let mut p: Vec<u8> = trace.decisions[..k].iter().map(|d| d.1).collect();
-                        p.push(1);
-                        stack.push(p);
+                    if trace.decisions[k].1 == 0 {
+                        for alt in 1..trace.decisions[k].0 {
+                            let mut p: Vec<u8> = trace.decisions[..k].iter().map(|d| d.1).collect();
+                            p.push(alt);
+                            stack.push(p);
+                        }
                     }
                 }
                 res.handoffs += rep.new_handoffs.len() as u64;
@@ -744,7 +796,7 @@ fn explore_state(cfg: &SimConfig, hist: &[Ev], seq_fps: &HashSet<Fp>, props: &[&
                 }
                 // Issue || Tick: when the clock step lands before the first lock acquisition of the check-out, the
                 // idle entry it takes was judged after the step: it must not be older than the timeout by then
-                if let (Ev::Issue { .. }, Ev::Tick(k)) = (a, b) {
+                if let (2, Ev::Issue { .. }, Ev::Tick(k)) = (group.len(), a, b) {
                     let tick_pos = trace.steps.iter().position(|(w, _)| *w == 1);
                     let issue_steps: Vec<usize> = trace.steps.iter().enumerate().filter(|(_, (w, _))| *w == 0).map(|(i, _)| i).collect();
                     if let (Some(tp), true) = (tick_pos, issue_steps.len() >= 2) {
@@ -770,7 +822,7 @@ fn explore_state(cfg: &SimConfig, hist: &[Ev], seq_fps: &HashSet<Fp>, props: &[&
                     } else {
                         res.conc_only.push(fp);
                         if res.sample.is_none() {
-                            res.sample = Some(format!("after [{}]: {} ∥ {} interleaved as {}", hist_text(hist), a.text(), b.text(), steps_text(a, b, &trace)));
+                            res.sample = Some(format!("after [{}]: {} interleaved as {}", hist_text(hist), group_text(&group), steps_text(&group, &trace)));
                         }
                         continue_sequentially(&mut sim, &mut viols, &mut res.drains, &mut res.probes);
                     }
@@ -781,9 +833,9 @@ fn explore_state(cfg: &SimConfig, hist: &[Ev], seq_fps: &HashSet<Fp>, props: &[&
                             res.found.push(ConcFound {
                                 viol: vv,
                                 hist: hist.to_vec(),
-                                pair: (a, b),
+                                group: group.clone(),
                                 schedule: trace.decisions.iter().map(|d| d.1).collect(),
-                                steps: steps_text(a, b, &trace),
+                                steps: steps_text(&group, &trace),
                             });
                         }
                     }
@@ -834,7 +886,7 @@ pub fn explore(cfg: &SimConfig, props: &[&'static str], max_wall_s: f64) -> Conc
                 let (c, hh) = (cfg.clone(), h.clone());
                 crate::evidence::watchdog::enter(move || super::replay_json(&c, &hh))
             };
-            v.push(explore_state(cfg, h, &seq_fps, props));
+            v.push(explore_state(cfg, h, &seq_fps, props, cfg.name.contains("triples")));
         }
         v
     });
@@ -845,6 +897,7 @@ pub fn explore(cfg: &SimConfig, props: &[&'static str], max_wall_s: f64) -> Conc
         for r in rs {
             stats.pairs += r.pairs;
             stats.env_pairs += r.env_pairs;
+            stats.triples += r.triples;
             stats.interleavings += r.interleavings;
             stats.max_decision_points = stats.max_decision_points.max(r.max_points);
             stats.max_interleavings_of_a_pair = stats.max_interleavings_of_a_pair.max(r.max_inter);
@@ -886,16 +939,16 @@ pub fn explore(cfg: &SimConfig, props: &[&'static str], max_wall_s: f64) -> Conc
 }
 
 /// Replay one recorded concurrent witness.
-pub fn replay(cfg: &SimConfig, hist: &[Ev], a: Ev, b: Ev, schedule: &[u8]) -> Result<(Vec<Viol>, String), String> {
+pub fn replay(cfg: &SimConfig, hist: &[Ev], group: &[Ev], schedule: &[u8]) -> Result<(Vec<Viol>, String), String> {
     let mut sim = Sim::replay(cfg, hist);
     let pre = checks::capture_pre(&sim);
     let mut max_idle_seen = 0usize;
-    let (rep, trace) = sim.apply_pair(a, b, schedule, &mut max_idle_seen)?;
+    let (rep, trace) = sim.apply_group(group, schedule, &mut max_idle_seen)?;
     let mut viols: Vec<Viol> = checks::check_step(&pre, Ev::Tick(0), &rep, &sim).into_iter().filter(sound_under_concurrency).collect();
     if max_idle_seen > sim.snap.max_idle_per_host {
-        viols.push(Viol { prop: "C15", sub: "idle-bound", msg: format!("{max_idle_seen} idle connections for one origin during the pair, max_idle_per_host={}", sim.snap.max_idle_per_host) });
+        viols.push(Viol { prop: "C15", sub: "idle-bound", msg: format!("{max_idle_seen} idle connections for one origin during the overlap, max_idle_per_host={}", sim.snap.max_idle_per_host) });
     }
-    let mut log = format!("pair {} ∥ {}: {}\n  {}", a.text(), b.text(), steps_text(a, b, &trace), rep.obs.join("; "));
+    let mut log = format!("{}: {}\n  {}", group_text(group), steps_text(group, &trace), rep.obs.join("; "));
     if viols.is_empty() {
         let (mut d, mut p) = (0, 0);
         continue_sequentially(&mut sim, &mut viols, &mut d, &mut p);
